@@ -215,6 +215,8 @@ pub enum Op {
     Eq(Vec<E>),
     CloneSwap,
     CloneCheck,
+    /// fault injection: run `op` with the k-th priority comparison (`cmp = true`) or the k-th user callback panicking
+    Crash { cmp: bool, k: u64, op: Box<Op> },
 }
 
 fn es(xs: &[E]) -> String {
@@ -301,6 +303,7 @@ impl Op {
             Eq(_) => "eq",
             CloneSwap => "clone_swap",
             CloneCheck => "clone_check",
+            Crash { .. } => "crash",
         }
     }
 
@@ -313,6 +316,7 @@ impl Op {
                 k == Kind::Dpq
             }
             PopIf(..) => k == Kind::Dpq,
+            Crash { op, .. } => op.valid_for(k),
             _ => true,
         }
     }
@@ -321,6 +325,7 @@ impl Op {
         use Op::*;
         let n = self.name();
         match self {
+            Crash { cmp, k, op } => format!("!{}{} {}", if *cmp { "cmp" } else { "cb" }, k, op.line()),
             Push(e) | PushIncrease(e) | PushDecrease(e) => format!("{} {} {} {}", n, e.0, e.1, e.2),
             ChangePriority(k, p) | ChangePriorityBy(k, p) => format!("{} {} {}", n, k, p),
             GetPriority(k) | Get(k) | Remove(k) => format!("{} {}", n, k),
@@ -346,6 +351,13 @@ impl Op {
     }
 
     pub fn parse(line: &str) -> Result<Op, String> {
+        let line = line.trim();
+        if let Some(rest) = line.strip_prefix('!') {
+            let (head, tail) = rest.split_once(' ').ok_or("bad crash op")?;
+            let (cmp, num) = if let Some(x) = head.strip_prefix("cmp") { (true, x) } else if let Some(x) = head.strip_prefix("cb") { (false, x) } else { return Err("bad crash prefix".into()) };
+            let k: u64 = num.parse().map_err(|e| format!("{:?}", e))?;
+            return Ok(Op::Crash { cmp, k, op: Box::new(Op::parse(tail)?) });
+        }
         let mut t = Toks { t: line.split_whitespace().collect(), i: 0 };
         let name = t.tok()?;
         use Op::*;
@@ -525,6 +537,7 @@ pub struct Hinted<I> {
 impl<I: Iterator> Iterator for Hinted<I> {
     type Item = I::Item;
     fn next(&mut self) -> Option<I::Item> {
+        cb_tick();
         self.it.next()
     }
     fn size_hint(&self) -> (usize, Option<usize>) {
@@ -592,13 +605,30 @@ pub fn apply<H: BuildHasher + Default + Clone>(q: &mut AnyQ<H>, op: &Op, lk: Loo
         };
     }
     match op {
+        Crash { cmp, k, op } => {
+            // arm the fuse relative to the current counters; the panic (if it fires) unwinds out of `apply`
+            if *cmp {
+                FUSE.with(|f| f.set(CMP.with(|c| c.get()) + *k));
+            } else {
+                CBFUSE.with(|f| f.set(CBCOUNT.with(|c| c.get()) + *k));
+            }
+            struct Disarm;
+            impl Drop for Disarm {
+                fn drop(&mut self) {
+                    FUSE.with(|f| f.set(0));
+                    CBFUSE.with(|f| f.set(0));
+                }
+            }
+            let _d = Disarm;
+            apply(q, op, lk)
+        }
         Push(e) => opt_p(both!(q, x => x.push(SItem::new(e.0, e.1), Pri::new(e.2))).map(|p| p.0)),
         PushIncrease(e) => opt_p(both!(q, x => x.push_increase(SItem::new(e.0, e.1), Pri::new(e.2))).map(|p| p.0)),
         PushDecrease(e) => opt_p(both!(q, x => x.push_decrease(SItem::new(e.0, e.1), Pri::new(e.2))).map(|p| p.0)),
         ChangePriority(k, p) => opt_p(both!(q, x => look!(x, change_priority, *k, Pri::new(*p))).map(|p| p.0)),
         ChangePriorityBy(k, p) => {
             let p = *p;
-            format!("{}", both!(q, x => look!(x, change_priority_by, *k, |r: &mut Pri| r.0 = p)))
+            format!("{}", both!(q, x => look!(x, change_priority_by, *k, |r: &mut Pri| { cb_tick(); r.0 = p })))
         }
         GetPriority(k) => opt_p(both!(q, x => look!(x, get_priority, *k).map(|p| p.0))),
         Get(k) => both!(q, x => opt_e(look!(x, get, *k))),
@@ -638,6 +668,7 @@ pub fn apply<H: BuildHasher + Default + Clone>(q: &mut AnyQ<H>, op: &Op, lk: Loo
             let mut seen = "none".to_string();
             let mut ncalls = 0;
             let f = |i: &mut SItem, p: &mut Pri| {
+                cb_tick();
                 ncalls += 1;
                 seen = format!("some {}", ent(i, p));
                 w.apply(i, p);
@@ -657,6 +688,7 @@ pub fn apply<H: BuildHasher + Default + Clone>(q: &mut AnyQ<H>, op: &Op, lk: Loo
         RetainMut(rows) => {
             let mut log: Vec<u64> = vec![];
             let f = |i: &mut SItem, p: &mut Pri| {
+                cb_tick();
                 let k = i.key();
                 log.push(k);
                 match rows.iter().find(|r| r.key == k) {
@@ -672,6 +704,7 @@ pub fn apply<H: BuildHasher + Default + Clone>(q: &mut AnyQ<H>, op: &Op, lk: Loo
         Retain(rows) => {
             let mut log: Vec<u64> = vec![];
             let f = |i: &SItem, _p: &Pri| {
+                cb_tick();
                 let k = i.key();
                 log.push(k);
                 match rows.iter().find(|r| r.key == k) {
